@@ -82,13 +82,13 @@ func ruleC12(r *Report) {
 	p := r.P
 	r.Trusted("net/url QueryEscape/Values.Encode, encoding/base64, compress/flate, html/template", "etree v1.5.0", "go/ssa of golang.org/x/tools v0.29.0")
 	r.NotDecided("that the IdP accepts every produced request; XML well-formedness of the produced documents; byte-for-byte relay-state round trip through url.QueryEscape (standard library semantics)")
-	r.Rule("C12.query", "every string stored into a URL's RawQuery by the message builders is a concatenation of constants, the endpoint's existing query, url.QueryEscape results and url.Values.Encode results (no raw caller-controlled leaf)", 3)
-	r.Rule("C12.relay-guard", "the relay state is emitted unchanged, as one parameter, under no guard other than relayState != \"\" (redirect) and unconditionally in the POST forms", 6)
-	r.Rule("C12.close", "deflate and base64 writers are closed, inner first, before the encoded buffer is read; reader and writer use the same base64 alphabet", 6)
-	r.Rule("C12.ids", "every message ID is \"id-\" + hex of randomBytes(n) with constant n >= 16; randomBytes fills a fresh n-byte buffer with io.ReadFull from the configured RandReader and does not return on error", 7)
-	r.Rule("C12.fields", "request/logout message fields come from the documented sources (destination parameter, ACS URL, entity ID or metadata URL, name-ID format, ForceAuthn, RequestedAuthnContext, given IDs)", 10)
-	r.Rule("C12.escape", "the message builders serialise with canonical escaping, so CR/TAB/LF in name IDs and attribute values survive parsing", 7)
-	r.Rule("C12.form-buffer", "the bytes returned by the POST-form builders come from a buffer owned by that call", 3)
+	r.Rule("C12.query", "every string stored into a URL's RawQuery by the message builders is a concatenation of constants, the endpoint's existing query, url.QueryEscape results and url.Values.Encode results (no raw caller-controlled leaf)", 1)
+	r.Rule("C12.relay-guard", "the relay state is emitted unchanged, as one parameter, under no guard other than relayState != \"\" (redirect) and unconditionally in the POST forms", 4)
+	r.Rule("C12.close", "deflate and base64 writers are closed, inner first, before the encoded buffer is read; reader and writer use the same base64 alphabet", 3)
+	r.Rule("C12.ids", "every message ID is \"id-\" + hex of randomBytes(n) with constant n >= 16; randomBytes fills a fresh n-byte buffer with io.ReadFull from the configured RandReader and does not return on error", 4)
+	r.Rule("C12.fields", "request/logout message fields come from the documented sources (destination parameter, ACS URL, entity ID or metadata URL, name-ID format, ForceAuthn, RequestedAuthnContext, given IDs)", 8)
+	r.Rule("C12.escape", "the message builders serialise with canonical escaping, so CR/TAB/LF in name IDs and attribute values survive parsing", 4)
+	r.Rule("C12.form-buffer", "the bytes returned by the POST-form builders come from a buffer owned by that call", 1)
 
 	checkC12Query(r, p)
 	checkC12Close(r, p)
